@@ -120,11 +120,15 @@ def stale_set_scenario():
 DEFECTS = ["nonmember", "wrongslot", "wrongkey", "nosig", "mut", "future", "nearfuture", "number", "cid", "exec", "unknownparent"]
 
 
-def random_scenario(rng, idx):
-    iv = rng.choice([1, 1, 1, 2])
-    nb = rng.randrange(2, 8)
+FIXED_SET = [0, 1, 2, 3, 4, 5, 6]      # engine B (real DPoS): 7 producers, key 7 is the outsider
+MAX_DEPTH_B = 4                        # < 2/3*7+1 confirmations: the LIB stays at the genesis block
+
+
+def random_scenario(rng, idx, fixed=False):
+    iv = 1 if fixed else rng.choice([1, 1, 1, 2])
+    nb = rng.randrange(2, 7 if fixed else 8)
     size = rng.randrange(1, 6)
-    cl = {0: rng.sample(range(NKEYS), size)}
+    cl = {0: list(FIXED_SET) if fixed else rng.sample(range(NKEYS), size)}
     blocks, depth = [], {0: 0}
     for i in range(1, nb + 1):
         r = rng.random()
@@ -132,16 +136,17 @@ def random_scenario(rng, idx):
             parent = i - 1            # chains
         else:
             parent = rng.randrange(0, i)
+        while fixed and depth[parent] + 1 > MAX_DEPTH_B:
+            parent = rng.randrange(0, i)
         d = depth[parent] + 1
         depth[i] = d
         b = blk(i, parent, d + rng.randrange(0, 2), off=1 + rng.randrange(0, iv * 1000))
-        if rng.random() < 0.15:
+        if not fixed and rng.random() < 0.15:
             cl[i] = rng.sample(range(NKEYS), rng.choice([size, size, rng.randrange(1, 6)]))
         if rng.random() < 0.4:
             k = rng.choice(DEFECTS)
             if k == "nonmember":
-                cur = cl.get(parent)
-                b["key"] = rng.randrange(NKEYS)
+                b["key"] = 7 if fixed else rng.randrange(NKEYS)
             elif k == "wrongslot":
                 b["delta"] = rng.randrange(1, 5)
             elif k == "wrongkey":
@@ -155,7 +160,7 @@ def random_scenario(rng, idx):
             elif k == "nearfuture":
                 b["rel"], b["slot"] = "now", rng.choice([-1, 0, 1])
             elif k == "number":
-                b["nodelta"] = rng.choice([-1, 1, 2])
+                b["nodelta"] = rng.choice([1, 2] if fixed and d == 1 else [-1, 1, 2])
             elif k == "cid":
                 b["cid"] = False
             elif k == "exec":
@@ -172,12 +177,41 @@ def random_scenario(rng, idx):
         rng.shuffle(order)
     for _ in range(rng.randrange(0, 4)):
         order.insert(rng.randrange(0, len(order) + 1), rng.randrange(1, nb + 1))
-    sc = {"name": "rnd%d" % idx, "iv": iv, "cap": rng.choice([2, 3, 100]), "blocks": blocks,
+    sc = {"name": ("rndB%d" if fixed else "rnd%d") % idx, "iv": iv, "cap": rng.choice([2, 3, 100]), "blocks": blocks,
           "cl": {str(k): v for k, v in cl.items()}, "ops": [["D", o] for o in order]}
     # the wrongkey signer must differ from the key named in the header; resolved by the engine when key<0,
     # so a coincidence only makes the block honest: the model takes sig_ok from the engine-independent rule below
     resolve_clusters(sc)
     return sc
+
+
+def for_real_dpos(scenarios):
+    """The scenarios engine B (real DPoS object) can run: one producer set for the whole scenario
+    (re-based on the 7-producer set, outsider key 7), 1 s slots, branches of at most MAX_DEPTH_B
+    blocks, no header number 0 (DPoS.VerifyTimestamp refuses numbers <= LIB = 0)."""
+    res = []
+    for sc in scenarios:
+        sets = {tuple(v) for v in sc["cl"].values()}
+        if len(sets) != 1 or sc["iv"] != 1:
+            continue
+        depth, ok = {0: 0, -1: 0}, True
+        for b in sc["blocks"]:
+            depth[b["id"]] = depth.get(b["parent"], 0) + 1
+            if depth[b["id"]] > MAX_DEPTH_B or depth[b["id"]] + b["nodelta"] <= 0:
+                ok = False
+        if not ok:
+            continue
+        c = json.loads(json.dumps(sc))
+        c["name"] += "-B"
+        old = list(sets)[0]
+        for b in c["blocks"]:
+            if b["key"] >= 0 and b["key"] not in old:
+                b["key"] = 7
+            elif b["key"] >= 0:
+                b["key"] = FIXED_SET[old.index(b["key"])]
+        c["cl"] = {k: list(FIXED_SET) for k in c["cl"]}
+        res.append(c)
+    return res
 
 
 def small_tree_family(defect_kinds):
@@ -236,7 +270,7 @@ def load_corpus(d):
 
 
 # ------------------------------------------------------------------------------ engine
-def run_engine(ctx, binpath, scenarios, tag="c09chain"):
+def run_engine(ctx, binpath, scenarios, tag="c09chain", test="TestVerifC09ChainEngine"):
     fin = os.path.join(ctx.workdir, tag + ".in")
     fout = os.path.join(ctx.workdir, tag + ".out")
     with open(fin, "w") as f:
@@ -244,7 +278,7 @@ def run_engine(ctx, binpath, scenarios, tag="c09chain"):
             f.write(json.dumps(sc) + "\n")
     if os.path.exists(fout):
         os.remove(fout)
-    rc, log = ctx.run_bin(binpath, ["-test.run", "TestVerifC09ChainEngine"], env={"VERIF_IN": fin, "VERIF_OUT": fout})
+    rc, log = ctx.run_bin(binpath, ["-test.run", test], env={"VERIF_IN": fin, "VERIF_OUT": fout})
     if rc != 0:
         raise RuntimeError("c09chain engine failed:\n" + log[-3000:])
     outs = [json.loads(l) for l in open(fout)]
